@@ -122,4 +122,64 @@ theorem C14_no_panic (sd : SD) (bs : Bytes) (fin : Fin) : ∀ s, decodeTop (.ptr
 
 example : send true true 30 (some { batchCount := 1, items := [{ op := 30, status := 0, reason := 0, msg := [], payload := .nil }] }) = .payload .nil := rfl
 
+/-! ### connection states: whatever a caller does with a Client, Send refuses unless connected and never dereferences nil -/
+
+namespace Client
+
+/-- the invariant client.go maintains: a non-nil connection comes with its encoder and decoder -/
+def CInv (s : CState) : Prop := s.conn = true → s.codec = true
+
+theorem cinv_fresh : CInv CState.fresh := by simp [CInv, CState.fresh]
+
+theorem cinv_step (s : CState) (op : COp) (h : CInv s) : CInv (cstep s op).1 := by
+  cases op with
+  | connect r => cases r <;> simp [cstep, CInv]
+  | close => simp [cstep, CInv]
+  | send =>
+    simp only [cstep]
+    by_cases hc : s.conn = true
+    · by_cases hd : s.codec = true
+      · simp [hc, hd]; exact h
+      · simp [hc, hd]; exact h
+    · simp [hc]; exact h
+
+theorem cinv_run : ∀ (ops : List COp) (s : CState), CInv s → CInv (crun s ops).1
+  | [], s, h => h
+  | op :: ops, s, h => by
+    simp only [crun]
+    exact cinv_run ops _ (cinv_step s op h)
+
+/-- no operation of any history panics -/
+theorem C14_states_no_panic : ∀ (ops : List COp) (s : CState), CInv s → COut.panic ∉ (crun s ops).2
+  | [], s, _ => by simp [crun]
+  | op :: ops, s, h => by
+    simp only [crun, List.mem_cons, not_or]
+    refine ⟨?_, C14_states_no_panic ops _ (cinv_step s op h)⟩
+    cases op with
+    | connect r => cases r <;> simp [cstep]
+    | close => simp [cstep]
+    | send =>
+      simp only [cstep]
+      by_cases hc : s.conn = true
+      · have := h hc
+        simp [hc, this]
+      · simp [hc]
+
+/-- Send returns an error whenever the last Connect failed or Close was called since (or Connect was never called) -/
+theorem C14_send_refused_unless_connected (s : CState) (h : s.conn = false) : (cstep s .send).2 = .err := by
+  simp [cstep, h]
+
+theorem C14_connect_failure_disconnects (s : CState) : (cstep s (.connect false)).1.conn = false ∧ (cstep s (.connect false)).2 = .err := by
+  simp [cstep]
+
+theorem C14_close_disconnects_and_is_idempotent (s : CState) :
+    (cstep s .close).1.conn = false ∧ (cstep s .close).2 = .ok ∧ cstep (cstep s .close).1 .close = ((cstep s .close).1, .ok) := by
+  simp [cstep]
+
+/-- for every history starting from a fresh Client: no panic anywhere -/
+theorem C14_fresh_history_safe (ops : List COp) : COut.panic ∉ (crun CState.fresh ops).2 :=
+  C14_states_no_panic ops _ cinv_fresh
+
+end Client
+
 end Kmip.Client
